@@ -55,4 +55,37 @@ PROPS = {
                      'the union-find did not grow are assumed contracts on core-relations (SortedWritesTable, Canonicalizer, containers)',
                      'EGraph struct projected onto the fields the verified functions use'],
     ),
+    'C05': dict(
+        units=['merge'],
+        kani_quick=[],
+        kani_thorough=[],
+        design_ref='DESIGN.md section 4 (U-MIN, U-MERGE) and section 5 C05',
+        level_text='Unbounded proof (Verus) on the real egglog-bridge code that (a) ResolvedMergeFn::run evaluates every resolved merge '
+                   'expression compositionally to mval(m, cur, new) (Const/Old/New/AssertEq/UnionId/Primitive/Function, all nesting depths), '
+                   'invokes the panic function exactly when a :no-merge conflict or a failed primitive/lookup occurs, and stages exactly the '
+                   'union rows of the UnionId nodes; (b) the closure built by MergeFn::to_callback reports `changed` exactly when the merged value '
+                   'or merged subsume flag differs from the stored one and then writes the whole row: incoming keys, mval, INCOMING timestamp, '
+                   'max of the flags; (c) min/max are ACI so the fold over writes is order independent. Whether the table applies the callback '
+                   'on every collision (serial/parallel insert, staged outputs, rebuild re-insertion) is NOT covered: assumed.',
+        level_note='Trusted: ExecutionState::{stage_insert, call_external_func, read_counter} as ghost logs; external functions and '
+                   'TableAction::lookup_or_insert as functions of their arguments; SchemaMath::write_table_row (generic impl-Trait code; assumed contract); '
+                   'NumericId axioms; core::cmp::min/max; rewrites R-LIFT, R-MAPCOLLECT, R-UNWRAPORELSE, R-THEN, R-BOOLOP, R-ASSERT (panic = divergence). '
+                   'Known unverified defect F2 (parallel_insert drops the merged row) lies in the assumed part; see DESIGN.md section 8.',
+        assumptions=['SortedWritesTable collision paths (serial_insert, parallel_insert, StagedOutputs::insert, rebuild) are assumed to apply the callback; F2 shows parallel_insert does not',
+                     'translate_expr_to_mergefn / MergeFn::resolve not covered'],
+    ),
+    'C13': dict(
+        units=['merge'],
+        kani_quick=[],
+        kani_thorough=[],
+        design_ref='DESIGN.md section 4 (U-MERGE, U-MIN, U-ACT) and section 5 C13',
+        level_text='Unbounded proof (Verus) on the real code that the subsume flag is combined by max on every collision in either order '
+                   '(combine_subsumed with the real SUBSUMED/NOT_SUBSUMED constants: a subsumed row stays subsumed, two live rows stay live), '
+                   'that a flag flip forces the row to be rewritten (changed), that the rewritten row carries the max flag in the subsume column, and '
+                   'that the subsume column is distinct from key/value/timestamp columns (SchemaMath layout). Query/extraction filters, the '
+                   ':subsume desugaring and rebuild propagation are NOT covered.',
+        level_note='Trusted: as for C05 (merge unit). Not covered: query_table NOT_SUBSUMED constraint, rebuild_row propagation, extraction skipping subsumed rows, '
+                   'TableAction::subsume (impl Iterator argument, SmallVec collect: outside the Verus subset), deletion.',
+        assumptions=['only the flag algebra, merge path and row layout are proved; matching/extraction filters are assumed'],
+    ),
 }
